@@ -31,6 +31,11 @@ struct uvector {
   unsigned *end() { return &d[0] + n; }
   void erase(unsigned *a, unsigned *b) { __CPROVER_assert(b == &d[0] + n && a >= &d[0] && a <= b, "C33.safety.erase_range_is_begin_plus_k_to_end_with_k_le_size"); n = (unsigned)(a - &d[0]); }
   void push_back(unsigned v) { __CPROVER_assert(n < VCAP, "stub capacity"); if (n < VCAP) { d[n] = v; n = n + 1; } }
+  bool empty() const { return n == 0; }
+  unsigned &front() { __CPROVER_assert(n > 0, "C33.safety.front_on_nonempty_vector"); return d[0]; }
+  unsigned &at(unsigned i) { __CPROVER_assert(i < n, "C33.safety.vector_index_in_bounds"); return d[i < VCAP ? i : 0]; }
+  void pop_back() { __CPROVER_assert(n > 0, "C33.safety.pop_back_on_nonempty_vector"); if (n > 0) n = n - 1; }
+  void resize(unsigned k) { __CPROVER_assert(k <= VCAP, "stub capacity"); n = k; }
   void reserve(long k) { __CPROVER_assert(k >= 0, "C33.safety.reserve_nonnegative"); }
 };
 struct slice { unsigned start, size, stride; slice(unsigned a, unsigned b, unsigned c) { start = a; size = b; stride = c; } };
@@ -44,6 +49,7 @@ struct bvalarray {
 };
 inline void slice_ref::operator=(bool v) { stub_slice_fill(a->d, a->n, start, size, stride, v); }
 inline unsigned min(unsigned a, unsigned b) { return a < b ? a : b; }
+inline unsigned max(unsigned a, unsigned b) { return a < b ? b : a; }
 inline unsigned sqrt(unsigned x) { return stub_isqrt(x); }
 inline unsigned floor(unsigned x) { return x; }
 struct back_ins { uvector *v; };
